@@ -14,6 +14,10 @@ Driver (relational, on the same real call): truth_chains re-evaluates all five c
 generator constructed (not the arguments as read back by the monitor; for EM-file inputs these are the float32 values the
 generator wrote with its own struct writer), and trivial_pairs checks the consequence "no candidate pair in range =>
 every chain is a singleton; a pair of particles can only be chained if its exit->entry distance is in range".
+History: for every fifth variant of each class and for the whole class second_call_moved_exits the driver makes a SECOND real call in the
+same process with the same entry list and another exit list (exit sites handed round inside each tomogram, or half of them moved away
+by 3..6 max_distance), and for even cases a third call with the first lists again; every call is judged by the call monitor against its
+own arguments and by truth_chains / trivial_pairs against its own ground truth (state kept between calls must not leak).
 Anchor tracing: every branch of get_nn_dist / add_chain_suffix / add_chain_prefix / the main loop is a named branch; a
 reach:<branch> monitor (one evaluation per shard that reached it) makes a run in which a reachable branch stayed
 unreached INCONCLUSIVE.
@@ -52,6 +56,8 @@ ASSUMPTIONS = [
     "is not on the lattice; generator: 1e-6) are regenerated / counted out of domain; ties between candidates are never excluded",
     "measured on class lattice_ties: sklearn's KD-tree returns integer-offset distances exactly (3-4-5 -> 5.0), pairs exactly at max ARE linked by "
     "cryoCAT and recorded exactly, pairs exactly at min never are",
+    "subtomo_id presentations: 1..n, unsorted non-contiguous, tomogram*100000+n and 17000000+n (consecutive, in row order or shuffled over the rows; "
+    "float or int64 columns; no EM-file form above 2**24), cycled deterministically over the variants of every class",
     "the value recorded on the LAST member of a chain is not constrained by the property (cryoCAT leaves stale values there after a cut) "
     "and is not judged; object numbers need not be contiguous",
     "the false side of `if cl_max > 1` in trace_chains is unreachable (after a successful suffix join every order number of the new chain is "
@@ -62,7 +68,7 @@ ASSUMPTIONS = [
 
 CLASSES = ["random_cluster", "late_suitors", "candidate_forest", "line_mid_start", "prefix_cut", "prefix_reject", "prefix_first", "heads_compete", "suffix_reject_fork",
            "suffix_after_cut", "both_sides_nocut", "both_sides_cut", "both_sides_reject", "bend_back_after_cut", "tail_cut", "tail_cut_after_join", "tail_cut_with_join", "same_target_single",
-           "same_chain_bridge", "closed_ring", "min_distance_shell", "tomo_overlap", "odd_ids_index", "zero_displacement", "tiny", "lattice_ties"]
+           "same_chain_bridge", "closed_ring", "min_distance_shell", "tomo_overlap", "odd_ids_index", "zero_displacement", "tiny", "lattice_ties", "second_call_moved_exits"]
 
 CLAUSES = ["partition", "tomogram", "orders", "link_range", "link_recorded"]
 
@@ -729,6 +735,12 @@ def _tables(rng, E, X, tomo_idx, pres):
     ids = np.arange(1, n + 1, dtype=float)
     if pres["ids"] == "shuffled_gaps":
         ids = rng.permutation(rng.choice(np.arange(1, 40 * n + 50), n, replace=False)).astype(float)
+    elif pres["ids"] in ("big100k", "big17M"):
+        # the common tomogram*100000 + n numbering / very large ids: consecutive numbers, in row order or shuffled over the rows
+        base_id = {"big100k": 100000.0 * float(rng.integers(1, 40)), "big17M": 17000000.0}[pres["ids"]]
+        ids = base_id + np.arange(1, n + 1, dtype=float)
+        if rng.random() < 0.5:
+            ids = rng.permutation(ids)
     for d, P in ((de, E), (dx, X)):
         d["subtomo_id"] = ids
         d["tomo_id"] = tl[tomo_idx]
@@ -745,7 +757,41 @@ def _tables(rng, E, X, tomo_idx, pres):
         de = de.astype(np.float32).astype(np.float64)
         if pres["form"] == "em":
             dx = dx.astype(np.float32).astype(np.float64)
+    if pres.get("int_ids"):
+        for d in (de, dx):
+            d["subtomo_id"] = d["subtomo_id"].astype(np.int64)
+            d["tomo_id"] = d["tomo_id"].astype(np.int64)
     return de, dx
+
+
+def _second_exit(rng, dx, Xpos, tomo, D, kind, pres):
+    """an exit list for a second call with the SAME entry list: exit sites handed round inside each tomogram ('permuted'), or half of them
+    moved away by 3..6 max_distance ('moved'); every former exit position then lies where the new list has another (or no) exit."""
+    X2 = Xpos.copy()
+    if kind == "permuted":
+        for t in np.unique(tomo):
+            rows = np.flatnonzero(tomo == t)
+            if len(rows) > 1:
+                X2[rows] = Xpos[np.roll(rows, int(rng.integers(1, len(rows))))] if rng.random() < 0.5 else Xpos[rng.permutation(rows)]
+    else:
+        mv = rng.random(len(X2)) < 0.5
+        if not mv.any():
+            mv[int(rng.integers(0, len(X2)))] = True
+        dirs = rng.normal(size=(int(mv.sum()), 3))
+        dirs /= np.linalg.norm(dirs, axis=1, keepdims=True)
+        step = dirs * rng.uniform(3, 6, (int(mv.sum()), 1)) * D
+        X2[mv] = Xpos[mv] + (np.round(step) if np.all(Xpos * 8 == np.round(Xpos * 8)) else step)
+    dx2 = dx.copy()
+    base = np.round(X2)
+    dx2[["x", "y", "z"]] = base
+    dx2[["shift_x", "shift_y", "shift_z"]] = X2 - base
+    if pres["form"] == "em":
+        keep = {c: dx2[c].dtype for c in dx2.columns}
+        dx2 = dx2.astype(np.float32).astype(np.float64)
+        if pres.get("int_ids"):
+            dx2["subtomo_id"] = dx2["subtomo_id"].astype(np.int64)
+            dx2["tomo_id"] = dx2["tomo_id"].astype(np.int64)
+    return dx2
 
 
 def _index(rng, df, kind):
@@ -865,6 +911,8 @@ def gen(ctx, i, cls):
             names = [cls]
         elif cls == "odd_ids_index":
             names = [DESIGNED[(v * 7 + 3) % len(DESIGNED)]]
+        elif cls == "second_call_moved_exits":
+            names = [[g for g in DESIGNED if g != "min_distance_shell"][(v * 5 + 1) % (len(DESIGNED) - 1)]]
         elif cls == "tiny":
             names = []
         else:
@@ -989,11 +1037,16 @@ def gen(ctx, i, cls):
         # presentation
         odd = cls == "odd_ids_index"
         pres = {"form": str(rng.choice(["df", "motl", "em", "mixed", "em_df"], p=[0.35, 0.35, 0.1, 0.15, 0.05])) if not odd else str(rng.choice(["motl", "mixed", "df"], p=[0.6, 0.25, 0.15])),
-                "ids": "shuffled_gaps" if (odd or rng.random() < 0.4) else "seq",
+                "ids": ["seq", "big100k", "shuffled_gaps", "big17M"][(v + CLASSES.index(cls)) % 4] if not odd else ["shuffled_gaps", "big100k", "big17M"][v % 3],
+                "int_ids": bool(rng.random() < 0.3),
                 "index_e": str(rng.choice(["permuted", "gaps", "reversed"])) if (odd or rng.random() < 0.3) else "range",
                 "index_x": str(rng.choice(["permuted", "gaps", "reversed"])) if (odd or rng.random() < 0.3) else "range",
                 "dirty": bool(rng.random() < 0.4), "kw": bool(rng.random() < 0.5), "min_default": bool(m == 0.0 and rng.random() < 0.5),
                 "int_min": bool(m == 0.0 and rng.random() < 0.3)}
+        if pres["ids"] == "big17M" and pres["form"] in ("em", "em_df"):
+            pres["form"] = "motl" if rng.random() < 0.5 else "df"      # ids above 2**24 are not float32-exact: no EM-file presentation
+        if pres["form"] in ("em", "em_df"):
+            pres["int_ids"] = False
         de, dx = _tables(rng, E, X, tomo_idx, pres)
         Et = {"sub": de["subtomo_id"].to_numpy(float), "tomo": de["tomo_id"].to_numpy(float), "pos": gens.positions(de), "n": len(de)}
         Xt = {"sub": dx["subtomo_id"].to_numpy(float), "tomo": dx["tomo_id"].to_numpy(float), "pos": gens.positions(dx), "n": len(dx)}
@@ -1010,14 +1063,29 @@ def gen(ctx, i, cls):
                 want += int(((dd > m) & (dd <= D)).sum())
             if int(cand.sum()) != want:
                 continue
+        second = None
+        if cls == "second_call_moved_exits" or v % 5 == 3:
+            second = ["permuted", "moved"][(v // 5 + CLASSES.index(cls)) % 2] if cls != "second_call_moved_exits" else ["permuted", "moved"][v % 2]
+            dx2 = _second_exit(rng, dx, Xt["pos"], Xt["tomo"], D, second, pres)
+            Xt2 = {"sub": dx2["subtomo_id"].to_numpy(float), "tomo": dx2["tomo_id"].to_numpy(float), "pos": gens.positions(dx2), "n": len(dx2)}
+            if not orc.boundary_clear(Et, Xt2, m, D, 1e-6):
+                continue
+            cand2 = orc.candidates(Et, Xt2, m, D)
         _index(rng, de, pres["index_e"])
         _index(rng, dx, pres["index_x"])
+        if second is not None:
+            dx2.index = dx.index
         tags = lat_tags if lat is not None else [p[3] for p in parts]
         summ = {"class": cls, "variant": v, "n": int(len(de)), "tomograms": int(len(np.unique(Et["tomo"]))), "max_distance": D, "min_distance": m,
                 "candidate_links": int(cand.sum()), "presentation": pres, "gadgets": tags,
                 "entry0": np.round(Et["pos"][0], 4).tolist(), "exit0": np.round(Xt["pos"][0], 4).tolist(), "attempt": attempt}
-        return {"i": i, "cls": cls, "entry": de, "exit": dx, "E": Et, "X": Xt, "D": D, "m": m, "pres": pres, "n_cand": int(cand.sum()),
-                "cand": cand, "summary": summ}
+        case = {"i": i, "cls": cls, "entry": de, "exit": dx, "E": Et, "X": Xt, "D": D, "m": m, "pres": pres, "n_cand": int(cand.sum()),
+                "cand": cand, "summary": summ, "exit2": None}
+        if second is not None:
+            summ["second_call"] = second
+            summ["candidate_links_second_call"] = int(cand2.sum())
+            case.update({"exit2": dx2, "X2": Xt2, "cand2": cand2, "n_cand2": int(cand2.sum())})
+        return case
     raise RuntimeError("generator could not build a case of class %s (i=%d)" % (cls, i))
 
 
@@ -1031,50 +1099,44 @@ def _em_write(path, df):
     files.write_em_raw(path, a.T[:, :, None], code=5)       # EM particle list: x = 20 fields, y = N, z = 1
 
 
-def _present(ctx, case):
-    pres, cm = case["pres"], ctx.cm
-    de, dx = case["entry"].copy(), case["exit"].copy()
-    form = pres["form"]
+def _wrap(ctx, case, df, which, tag=""):
+    """present one table in the case's input form: which = 'entry' | 'exit'"""
+    form, cm = case["pres"]["form"], ctx.cm
+    df = df.copy()
     if form == "df":
-        return de, dx
+        return df
     if form == "motl":
-        return cm.Motl(de), cm.Motl(dx)
+        return cm.Motl(df)
     if form == "mixed":
-        return (de, cm.Motl(dx)) if case["i"] % 2 else (cm.Motl(de), dx)
-    pe = os.path.join(ctx.scratch, "entry_%d.em" % case["i"])
-    _em_write(pe, de)
-    if form == "em_df":
-        return pe, dx
-    px = os.path.join(ctx.scratch, "exit_%d.em" % case["i"])
-    _em_write(px, dx)
-    return pe, px
+        as_motl = (which == "exit") == bool(case["i"] % 2)
+        return cm.Motl(df) if as_motl else df
+    if form == "em_df" and which == "exit":
+        return df
+    path = os.path.join(ctx.scratch, "%s%s_%d.em" % (which, tag, case["i"]))
+    _em_write(path, df)
+    return path
 
 
-def run_case(ctx, case):
-    a_entry, a_exit = _present(ctx, case)
+def _call(ctx, case, a_entry, a_exit, label):
     D, m, pres = case["D"], case["m"], case["pres"]
     mval = int(0) if pres["int_min"] else m
     fn = ctx.rb.trace_chains                               # looked up at call time: the monitored attribute
     if pres["min_default"]:
-        ok, res = ctx.call("trace_chains", fn, a_entry, a_exit, D) if not pres["kw"] else ctx.call("trace_chains", fn, motl_entry=a_entry, motl_exit=a_exit, max_distance=D)
-    elif pres["kw"]:
-        ok, res = ctx.call("trace_chains", fn, motl_entry=a_entry, motl_exit=a_exit, max_distance=D, min_distance=mval)
-    else:
-        ok, res = ctx.call("trace_chains", fn, a_entry, a_exit, D, mval)
-    for p in (a_entry, a_exit):
-        if isinstance(p, str):
-            try:
-                os.remove(p)
-            except OSError:
-                pass
-    if not ok:
-        return
+        return ctx.call(label, fn, a_entry, a_exit, D) if not pres["kw"] else ctx.call(label, fn, motl_entry=a_entry, motl_exit=a_exit, max_distance=D)
+    if pres["kw"]:
+        return ctx.call(label, fn, motl_entry=a_entry, motl_exit=a_exit, max_distance=D, min_distance=mval)
+    return ctx.call(label, fn, a_entry, a_exit, D, mval)
+
+
+def _drive_checks(ctx, case, res, Xt, cand, n_cand, what):
+    """driver-side judgement of one real call against the generator's ground truth for THAT call's lists."""
+    D, m = case["D"], case["m"]
     out = orc.read_output(res)
-    _judge(ctx, ["truth_chains"], case["E"], case["X"], out, m, D, {"class": case["cls"], "gadgets": case["summary"]["gadgets"]})
+    _judge(ctx, ["truth_chains"], case["E"], Xt, out, m, D, {"class": case["cls"], "gadgets": case["summary"]["gadgets"], "call": what})
     # consequence of the link clause: two particles may be consecutive only if their exit->entry distance is a candidate
     if out is None:
-        ctx.check("trivial_pairs", False, {"what": "no table"})
-        return
+        ctx.check("trivial_pairs", False, {"what": "no table", "call": what})
+        return None, None, None
     row_of = {s: k for k, s in enumerate(case["E"]["sub"].tolist())}
     w = None
     keyed = {}
@@ -1083,24 +1145,56 @@ def run_case(ctx, case):
     for key, mem in keyed.items():
         mem.sort()
         for (g1, s1), (g2, s2) in zip(mem[:-1], mem[1:]):
-            if s1 in row_of and s2 in row_of and not case["cand"][row_of[s1], row_of[s2]]:
-                w = {"chain": list(key), "former": s1, "latter": s2, "orders": [g1, g2],
+            if s1 in row_of and s2 in row_of and not cand[row_of[s1], row_of[s2]]:
+                w = {"chain": list(key), "former": s1, "latter": s2, "orders": [g1, g2], "call": what,
                      "what": "neighbours in a chain although their exit->entry distance is not a candidate (or they share no tomogram)"}
                 break
         if w:
             break
-    if w is None and case["n_cand"] == 0 and len(keyed) != len(out["sub"]):
-        w = {"what": "no candidate pair exists, yet some chain has more than one member", "chains": len(keyed), "particles": len(out["sub"])}
+    if w is None and n_cand == 0 and len(keyed) != len(out["sub"]):
+        w = {"what": "no candidate pair exists, yet some chain has more than one member", "chains": len(keyed), "particles": len(out["sub"]), "call": what}
     ctx.check("trivial_pairs", w is None, w)
-    if case["cls"] == "lattice_ties":
-        d2 = orc.sq_matrix(case["E"], case["X"])
-        ex = orc.exact_pairs(case["E"], case["X"], m, D)
-        ctx.extra["lattice_pairs_exactly_at_min"] = ctx.extra.get("lattice_pairs_exactly_at_min", 0) + int((ex & (d2 == m * m)).sum())
-        ctx.extra["lattice_pairs_exactly_at_max"] = ctx.extra.get("lattice_pairs_exactly_at_max", 0) + int((ex & (d2 == D * D)).sum())
-        nmax = 0
-        for key, mem in keyed.items():
-            for (g1, s1), (g2, s2) in zip(mem[:-1], mem[1:]):
-                if s1 in row_of and s2 in row_of and d2[row_of[s1], row_of[s2]] == D * D:
-                    nmax += 1
-        ctx.extra["lattice_links_exactly_at_max"] = ctx.extra.get("lattice_links_exactly_at_max", 0) + nmax
-        ctx.extra["lattice_cases_all_pairs_exact"] = ctx.extra.get("lattice_cases_all_pairs_exact", 0) + int(ex.all())
+    return out, keyed, row_of
+
+
+def run_case(ctx, case):
+    D, m = case["D"], case["m"]
+    a_entry = _wrap(ctx, case, case["entry"], "entry")
+    a_exit = _wrap(ctx, case, case["exit"], "exit")
+    paths = [p for p in (a_entry, a_exit) if isinstance(p, str)]
+    try:
+        ok, res = _call(ctx, case, a_entry, a_exit, "trace_chains")
+        if ok:
+            out, keyed, row_of = _drive_checks(ctx, case, res, case["X"], case["cand"], case["n_cand"], "first call")
+            if out is not None and case["cls"] == "lattice_ties":
+                d2 = orc.sq_matrix(case["E"], case["X"])
+                ex = orc.exact_pairs(case["E"], case["X"], m, D)
+                ctx.extra["lattice_pairs_exactly_at_min"] = ctx.extra.get("lattice_pairs_exactly_at_min", 0) + int((ex & (d2 == m * m)).sum())
+                ctx.extra["lattice_pairs_exactly_at_max"] = ctx.extra.get("lattice_pairs_exactly_at_max", 0) + int((ex & (d2 == D * D)).sum())
+                nmax = 0
+                for key, mem in keyed.items():
+                    for (g1, s1), (g2, s2) in zip(mem[:-1], mem[1:]):
+                        if s1 in row_of and s2 in row_of and d2[row_of[s1], row_of[s2]] == D * D:
+                            nmax += 1
+                ctx.extra["lattice_links_exactly_at_max"] = ctx.extra.get("lattice_links_exactly_at_max", 0) + nmax
+                ctx.extra["lattice_cases_all_pairs_exact"] = ctx.extra.get("lattice_cases_all_pairs_exact", 0) + int(ex.all())
+        if case.get("exit2") is not None:
+            # history: a SECOND call in the same process, same entry list, different exit list; judged against its own inputs
+            a_exit2 = _wrap(ctx, case, case["exit2"], "exit", "2")
+            if isinstance(a_exit2, str):
+                paths.append(a_exit2)
+            ok2, res2 = _call(ctx, case, a_entry, a_exit2, "trace_chains(second call)")
+            ctx.extra["second_calls"] = ctx.extra.get("second_calls", 0) + 1
+            if ok2:
+                _drive_checks(ctx, case, res2, case["X2"], case["cand2"], case["n_cand2"], "second call: same entries, exits " + case["summary"]["second_call"])
+            if case["i"] % 2 == 0:
+                # and back to the first exit list: the result of an identical call must again satisfy the clauses
+                ok3, res3 = _call(ctx, case, a_entry, a_exit, "trace_chains(third call)")
+                if ok3:
+                    _drive_checks(ctx, case, res3, case["X"], case["cand"], case["n_cand"], "third call: first lists again")
+    finally:
+        for p in paths:
+            try:
+                os.remove(p)
+            except OSError:
+                pass
